@@ -1078,9 +1078,10 @@ def run_member(ctx, exe, model, sc, cases, lines_build, oh_build, rng, findings,
                 why = ""
                 if reg["type"] == "ppiped" and (got == "i") == ppiped_mem(reg["p"], lp, documented=False):
                     why = "ppiped-y"
-                elif reg["type"] == "ellipsoid" and any(tag in ("cx", "cy", "cz", "cxc", "cyc", "czc")
-                                                        for _, _, tag, _ in b["nodes"]):
-                    why = "ellipsoid-cyl"
+                elif reg["type"] == "ellipsoid" and any(
+                        tag in ("cx", "cy", "cz", "cxc", "cyc", "czc", "p", "px", "py", "pz")
+                        for _, _, tag, _ in b["nodes"]):
+                    why = "ellipsoid-cyl"      # simplified to a lower class (cylinder or plane)
                 elif reg["type"] == "ellipsoid" and isinstance(tra, dict) and any(
                         tag == "sq" for _, _, tag, _ in b["nodes"]) and not all(
                         v in (0.0, 1.0, -1.0) for v in tra["R"]):
@@ -1275,6 +1276,9 @@ def run_e2e(ctx, exe, sc, n, npts, findings, stats):
             n_eval += 1
             if chars[j] != exp:
                 kind = "e2e/cone-merge" if cones_soft_equal(surfs[i], tol) else "e2e"
+                tw = sum(genprism_twisted_faces(r) for r, _ in object_leaves(o) if r["type"] == "genprism")
+                if kind == "e2e" and tw > sum(1 for tag, _ in surfs[i] if tag in ("gq", "sq")):
+                    kind = "e2e/genprism-planar"
                 findings.append((kind, o, tol, None, l, {"point": p, "expected": exp, "located": chars[j],
                                                          "object": object_words_readable(o)}))
     return len(lines), n_eval
@@ -1339,6 +1343,8 @@ def classify(kind, reg, info):
         return "transformed-surface-sense-differs:" + t
     if kind == "e2e-crash":
         return "e2e-crash"
+    if kind == "e2e/genprism-planar":
+        return "genprism-twisted-face-emitted-planar"
     if kind == "e2e/cone-merge":
         return "cone-softequal-merges-distinct-cones"
     if kind == "e2e":
@@ -1398,7 +1404,7 @@ def run_part(ctx):
     nb = (6000 if quick else 120000) * boost
     lines, oh, cases, div_build = run_build_diff(ctx, exe, model, sc, nb, stats, findings)
     n_bb = check_bboxes(ctx, cases, lines, oh, ctx.rng, findings)
-    sub = list(zip(cases, lines, oh))[: (1500 if quick else 20000) * boost]
+    sub = list(zip(cases, lines, oh))[: (1500 if quick else 10000) * boost]
     n_mem, n_mem_eval, div_mem = run_member(
         ctx, exe, model, sc, [c for c, _, _ in sub], [l for _, l, _ in sub], [o for _, _, o in sub],
         ctx.rng, findings, 24 if quick else 40)
@@ -1441,7 +1447,8 @@ def run_part(ctx):
     ]
     cov.update({
         "solids_corpus_ops": n_corpus, "solids_build_ops": len(lines), "solids_member_ops": n_mem, "solids_member_points": n_mem_eval,
-        "solids_bbox_points": n_bb, "solids_simplify_ops": n_simp, "solids_simplify_crashes": simp_crash,
+        "solids_bbox_points": n_bb, "solids_xform_ops": n_xf, "solids_xform_sense_points": n_xf_or,
+        "solids_simplify_ops": n_simp, "solids_simplify_crashes": simp_crash,
         "solids_e2e_geometries": n_e2e, "solids_e2e_points": n_e2e_eval,
         "solids_op_mix": dict(sorted(stats.items())), "solids_diverging_ops": len(diverged),
         "solids_oracle_findings": sorted(seen), "solids_correspondence_broken": broken,
